@@ -166,6 +166,7 @@ RECURSIVE FromStreamI(_, _, _, _, _)
 \* cur = .v, e = .e; -> [ok, vs]; ok = FALSE if setpath fails (not a stream of events)
 FromStreamI(evs, i, cur, e, acc) ==
   IF i > Len(evs) THEN [ok |-> TRUE, vs |-> acc]
+  ELSE IF ~(evs[i].t = "arr" /\ Len(evs[i].a) \in {1, 2} /\ evs[i].a[1].t = "arr") THEN [ok |-> FALSE, vs |-> acc]
   ELSE LET ev == evs[i]
            c0 == IF e THEN Null ELSE cur
            p == ev.a[1]
